@@ -53,6 +53,10 @@ struct Desc {
 
 inline bool isVirtualNode(const std::string& n) { return n.size() >= 2 && n.front() == '<' && n.back() == '>'; }
 inline bool isDirNode(const std::string& n) { return !n.empty() && n.back() == '/'; }
+// by the generator's convention the output of a symlink command is called *.lnk
+// ... and the output of a mkdir command *.dir (a plain node naming a directory; consumers only wait for it)
+inline bool isMkdirNode(const std::string& n) { return n.size() > 4 && n.compare(n.size() - 4, 4, ".dir") == 0; }
+inline bool isLinkNode(const std::string& n) { return n.size() > 4 && n.compare(n.size() - 4, 4, ".lnk") == 0; }
 
 // What the tool does with what it reads.  `read` returns false when the path does not exist.
 struct ToolResult {
